@@ -51,7 +51,17 @@ class Submodule(Module):
         if not self.ancestor_name:
             return
         if self.ancestor_name in obj_tree:
-            self.ancestor_obj = obj_tree[self.ancestor_name][0]
+            ancestor_obj = obj_tree[self.ancestor_name][0]
+            # A submodule cannot be its own ancestor: keep the chain acyclic
+            seen = []
+            obj = ancestor_obj
+            while obj is not None and not any(obj is i for i in seen):
+                if obj is self:
+                    self.ancestor_obj = None
+                    return
+                seen.append(obj)
+                obj = getattr(obj, "ancestor_obj", None)
+            self.ancestor_obj = ancestor_obj
 
     def require_inherit(self):
         return True
